@@ -293,6 +293,18 @@ def judge_valid(case: dict[str, Any]) -> Judgement:
                 continue
             j.fail(f"mutable-model:{type(model).__name__}", path=path, field=name)
             break
+    # deleting a field is a mutation too; tried on a second, separately validated object because a successful deletion
+    # leaves the object unusable for the rest of the case
+    victim_models: list[tuple[str, Any]] = []
+    walk(EnOptConfig.model_validate(_copy(cfg), context=transforms), "config", victim_models, [])
+    for path, model in victim_models:
+        for name in type(model).model_fields:
+            try:
+                delattr(model, name)
+            except Exception:  # noqa: BLE001
+                continue
+            j.fail(f"deletable-field:{type(model).__name__}", path=path, field=name)
+            break
     for path, array in arrays:
         writable = bool(array.flags.writeable)
         if not writable:
